@@ -42,9 +42,15 @@ Obligation(pt) ==
 \* the nuclear points: one EW point per cell
 PointsNucl == {[q EXCEPT !.tza = 3] : q \in {q \in Points0 : Canon(q) /\ q.s2w = (CHOOSE s \in S2W : TRUE) /\ q.omd = (CHOOSE o \in OMD : TRUE)
                                                               /\ q.pol = (CHOOSE pl \in POL : TRUE) /\ q.ckm = "generic"}}
+\* other weak mixing angles than the lattice's own, on a thin slice of the NC cells: every worker process meets several values of
+\* sin^2(theta_W) one after the other (whatever is remembered of the couplings at class or module level belongs to ONE theory)
+PointsS2W == IF "NC" \notin PROCS \/ "light" \notin FLAVS THEN {} ELSE
+  {Pt("NC", j, k, "light", n, s, r, o, pl, "generic", 0) :
+     j \in {11, -12}, k \in KINDS \cap {"F2", "F3"}, n \in NFZM, s \in {R(1, 4), R(1, 8)} \ S2W, r \in RR \ {Zero}, o \in OMD, pl \in POL}
 \* (the two point sets are filtered lazily and only the obligations are united: a union of the point sets themselves makes TLC
 \* normalise half a million records)
 ASSUME ndJsonSerialize(IOEnv.OUT, SetToSeq({Obligation(pt) : pt \in {q \in Points0 : Canon(q)}}
                                             \cup {Obligation(pt) : pt \in {q \in PointsTiny : Canon(q)}}
-                                            \cup {Obligation(pt) : pt \in PointsNucl}))
+                                            \cup {Obligation(pt) : pt \in PointsNucl}
+                                            \cup {Obligation(pt) : pt \in PointsS2W}))
 =============================================================================
